@@ -6,6 +6,7 @@ package main
 import (
 	"fmt"
 	"go/types"
+	"strings"
 
 	"golang.org/x/tools/go/ssa"
 )
@@ -153,6 +154,14 @@ func (p *Path) yield(fr *frame, instr ssa.Instruction, what string) {
 	if p.switches >= p.cfg.Switches {
 		return
 	}
+	if strings.HasPrefix(what, "quiet.") {
+		return
+	}
+	for _, k := range p.cfg.NoYield {
+		if strings.HasPrefix(what, k) {
+			return
+		}
+	}
 	en := p.enabled()
 	var others []*Thread
 	for _, o := range en {
@@ -225,18 +234,27 @@ func (p *Path) mutex(addr Ptr) *mutexState {
 	return m
 }
 
+// muKind prefixes the scheduling-point kind of a mutex the harness declared quiet
+// (its critical sections commute with everything the property observes).
+func (p *Path) muKind(addr Ptr, kind string) string {
+	if p.quietMu != nil && p.quietMu[addr] {
+		return "quiet." + kind
+	}
+	return kind
+}
+
 func (p *Path) mutexLock(fr *frame, addr Ptr) {
 	if addr == nil {
 		panic(targetPanic{msg: "runtime error: invalid memory address or nil pointer dereference (nil mutex)"})
 	}
-	p.yield(fr, nil, "lock")
+	p.yield(fr, nil, p.muKind(addr, "lock"))
 	m := p.mutex(addr)
 	p.block(fr, nil, "mutex lock", func() bool { return m.writer == nil && len(m.readers) == 0 })
 	m.writer = p.cur
 }
 
 func (p *Path) mutexTryLock(fr *frame, addr Ptr) bool {
-	p.yield(fr, nil, "trylock")
+	p.yield(fr, nil, p.muKind(addr, "trylock"))
 	m := p.mutex(addr)
 	if m.writer == nil && len(m.readers) == 0 {
 		m.writer = p.cur
@@ -251,11 +269,11 @@ func (p *Path) mutexUnlock(fr *frame, addr Ptr) {
 		panic(targetPanic{msg: "fatal error: sync: unlock of unlocked mutex"})
 	}
 	m.writer = nil
-	p.yield(fr, nil, "unlock")
+	p.yield(fr, nil, p.muKind(addr, "unlock"))
 }
 
 func (p *Path) mutexRLock(fr *frame, addr Ptr) {
-	p.yield(fr, nil, "rlock")
+	p.yield(fr, nil, p.muKind(addr, "rlock"))
 	m := p.mutex(addr)
 	p.block(fr, nil, "rwmutex rlock", func() bool { return m.writer == nil })
 	m.readers[p.cur]++
@@ -285,7 +303,7 @@ func (p *Path) mutexRUnlock(fr *frame, addr Ptr) {
 			delete(m.readers, p.cur)
 		}
 	}
-	p.yield(fr, nil, "runlock")
+	p.yield(fr, nil, p.muKind(addr, "runlock"))
 }
 
 // ---- channels ----
@@ -484,6 +502,12 @@ func (p *Path) selectOp(fr *frame, instr *ssa.Select) Value {
 				p.block(fr, instr, "select", func() bool {
 					if len(ready()) > 0 {
 						return true
+					}
+					// a pending timer among the cases can fire at any moment
+					for _, c := range cases {
+						if !c.send && c.ch != nil && c.ch.timer != nil && !c.ch.timer.stopped && (!c.ch.timer.fired || c.ch.timer.periodic) {
+							return true
+						}
 					}
 					return false
 				})
